@@ -259,6 +259,8 @@ package gohlslib
 //@   && (is(p.storage, *storage.partDisk) || is(p.storage, *storage.partRAM))
 
 // rotateParts: publishes the open part (id old nextPartID, ending at nextDTS) and opens the next one
+// C01 / C05 / C17: the next part of a segment's file is allocated only after the previous part has been written out
+// (a disk file derives the new part's offset from what the previous part holds at that moment)
 //@ func muxerStream.rotateParts
 //@   props C03 C04 C05 C06 C08 C18
 //@   role writer
@@ -269,6 +271,8 @@ package gohlslib
 //@   requires distinctTracks(s.tracks) && segsOK(s.segments)
 //@   requires forall(j, (0 <= j && j < len(s.nextPart.segment.parts)) ==> s.nextPart.segment.parts[j] != nil)
 //@   modifies s.nextPartID, s.nextPart, s.partTargetDuration, s.nextPart.endDTS, muxerTrack.fmp4Samples, s.nextPart.segment.parts, s.server.pathHandlers[*]
+//@   atcall storage.fileDisk.NewPart calls("muxerPart.finalize") == 1
+//@   atcall storage.fileRAM.NewPart calls("muxerPart.finalize") == 1
 //@   ensures result == nil ==> s.nextPartID == old(s.nextPartID) + 1
 //@   ensures result == nil ==> old(s.nextPart).endDTS == nextDTS
 //@   ensures (result == nil && s.variant == MuxerVariantLowLatency) ==> (len(old(s.nextPart.segment).parts) == old(len(s.nextPart.segment.parts)) + 1
